@@ -145,7 +145,16 @@ func userError(n int) error {
 	case 1:
 		e = fmt.Errorf("callback context: %w", sentinel(n))
 	default:
-		e = &userErr{n: n, inner: errors.New("inner cause")}
+		// the inner cause is sometimes a context error of the USER's own (an attempt-local timeout): it must be
+		// treated like any other user error while the run's own context is alive
+		switch n % 4 {
+		case 0:
+			e = &userErr{n: n, inner: context.DeadlineExceeded}
+		case 1:
+			e = &userErr{n: n, inner: context.Canceled}
+		default:
+			e = &userErr{n: n, inner: errors.New("inner cause")}
+		}
 	}
 	errMu.Lock()
 	issued[n] = e
